@@ -216,6 +216,7 @@ func (w *World) Verify(c *Contract) (res *TargetResult) {
 	}
 	for _, id := range c.Counts {
 		x.setCounter(heap, id, bvLit(0, 64)) // ghost call counters start at zero
+		x.setCounter(heap, failedID(id), bvLit(0, 64))
 	}
 	entry := heap.clone()
 	for _, r := range c.Requires {
@@ -261,8 +262,33 @@ func (w *World) Verify(c *Contract) (res *TargetResult) {
 	} else if fn.Signature.Results().Len() == 1 {
 		results = []Val{rv}
 	}
+	// casesPost proves `forall k :: body` for an arbitrary constant k by the exhaustive case
+	// split k == lo, ..., k == hi-1, k outside [lo,hi). Every case is an obligation; together
+	// they are equivalent to the unsplit one.
+	casesPost := func(e *Clause, reach string, heap *Heap, res []Val, suffix string, pos token.Pos) {
+		sk := &skolem{}
+		x.skolemNext = sk
+		t := x.evalClauseAt(reach, f, e, heap, entry, args, res, nil)
+		x.skolemNext = nil
+		w, ok := bvWidth(sk.sort)
+		if sk.name == "" || !ok {
+			unsup("cases %s: the clause is not a top-level forall over an integer variable", e.CaseVar)
+		}
+		x.inputs = append(x.inputs, InputVar{"forall " + e.CaseVar, sk.v})
+		var outside []string
+		for k := e.CaseLo; k < e.CaseHi; k++ {
+			is := eq(sk.name, bvLit(uint64(k), w))
+			outside = append(outside, not(is))
+			x.oblige("post", fmt.Sprintf("ensures%d%s.%s=%d", e.N, suffix, e.CaseVar, k), e.Props, and(reach, is, not(t)), fn, pos)
+			x.lastObl.Detail, x.lastObl.Clause = e.Text, e
+			x.lastObl.Group = fmt.Sprintf("ensures%d", e.N)
+		}
+		x.oblige("post", fmt.Sprintf("ensures%d%s.%s=other", e.N, suffix, e.CaseVar), e.Props, and(append([]string{reach}, append(outside, not(t))...)...), fn, pos)
+		x.lastObl.Detail, x.lastObl.Clause = e.Text, e
+		x.lastObl.Group = fmt.Sprintf("ensures%d", e.N)
+	}
 	for _, e := range c.Ensures {
-		if c.SplitReturns && e.CaseVar == "" && len(f.rets) > 1 {
+		if c.SplitReturns && len(f.rets) > 1 {
 			// proof hint `split returns`: the postcondition is proved once per return statement
 			// (unfolded), each with that return's own values and heap. The return conditions
 			// partition the merged one, so the conjunction of the cases is the unsplit obligation.
@@ -273,6 +299,10 @@ func (w *World) Verify(c *Contract) (res *TargetResult) {
 				} else if fn.Signature.Results().Len() == 1 {
 					res = []Val{r.val}
 				}
+				if e.CaseVar != "" {
+					casesPost(e, r.reach, r.heap, res, fmt.Sprintf(".ret%d", i), r.pos)
+					continue
+				}
 				x.goalReach = r.reach
 				t, facts := x.evalClauseGoal(f, e, r.heap, entry, args, res, nil)
 				x.oblige("post", fmt.Sprintf("ensures%d.ret%d", e.N, i), e.Props, and(r.reach, facts, not(t)), fn, r.pos)
@@ -281,36 +311,12 @@ func (w *World) Verify(c *Contract) (res *TargetResult) {
 			}
 			continue
 		}
-		var sk *skolem
 		if e.CaseVar != "" {
-			sk = &skolem{}
-			x.skolemNext = sk
-		}
-		t := x.evalClauseAt(retReach, f, e, final, entry, args, results, nil)
-		x.skolemNext = nil
-		if sk == nil {
-			x.oblige("post", fmt.Sprintf("ensures%d", e.N), e.Props, and(retReach, not(t)), fn, token.NoPos)
-			x.lastObl.Detail, x.lastObl.Clause = e.Text, e
-			x.lastObl.Group = fmt.Sprintf("ensures%d", e.N)
+			casesPost(e, retReach, final, results, "", token.NoPos)
 			continue
 		}
-		// `forall k :: body` as a postcondition is proved for an arbitrary constant k, by the
-		// exhaustive case split k == lo, ..., k == hi-1, k outside [lo,hi). Every case is an
-		// obligation; together they are equivalent to the unsplit one.
-		w, ok := bvWidth(sk.sort)
-		if sk.name == "" || !ok {
-			unsup("cases %s: the clause is not a top-level forall over an integer variable", e.CaseVar)
-		}
-		x.inputs = append(x.inputs, InputVar{"forall " + e.CaseVar, sk.v})
-		var outside []string
-		for k := e.CaseLo; k < e.CaseHi; k++ {
-			is := eq(sk.name, bvLit(uint64(k), w))
-			outside = append(outside, not(is))
-			x.oblige("post", fmt.Sprintf("ensures%d.%s=%d", e.N, e.CaseVar, k), e.Props, and(retReach, is, not(t)), fn, token.NoPos)
-			x.lastObl.Detail, x.lastObl.Clause = e.Text, e
-			x.lastObl.Group = fmt.Sprintf("ensures%d", e.N)
-		}
-		x.oblige("post", fmt.Sprintf("ensures%d.%s=other", e.N, e.CaseVar), e.Props, and(append([]string{retReach}, append(outside, not(t))...)...), fn, token.NoPos)
+		t := x.evalClauseAt(retReach, f, e, final, entry, args, results, nil)
+		x.oblige("post", fmt.Sprintf("ensures%d", e.N), e.Props, and(retReach, not(t)), fn, token.NoPos)
 		x.lastObl.Detail, x.lastObl.Clause = e.Text, e
 		x.lastObl.Group = fmt.Sprintf("ensures%d", e.N)
 	}
@@ -429,6 +435,9 @@ func (x *Exec) frameObligations(f *frame, c *Contract, entry, final *Heap, args 
 	for _, k := range keys {
 		fe := final.m[k]
 		if strings.HasPrefix(k, "box:") || strings.HasPrefix(k, "ghost:") {
+			continue
+		}
+		if k == reflectVersionKey && c.ModReflect {
 			continue
 		}
 		et := x.hget(entry, k, fe.sort, fe.idx)
